@@ -597,8 +597,12 @@ fn scen_body(sc: &Scen) {
                 shuttle::thread::spawn(move || {
                     let mut db = db;
                     let mut outs: Vec<Out> = Vec::new();
+                    #[cfg(feature = "memchk")]
+                    ql::val::retain::enable(true);
                     for op in &ops {
                         if matches!(op, Op::Reclone) {
+                            #[cfg(feature = "memchk")]
+                            mem_revalidate();
                             let fresh = db.clone();
                             drop(db);
                             db = fresh;
@@ -606,6 +610,12 @@ fn scen_body(sc: &Scen) {
                         } else {
                             outs.push(request(&db, op));
                         }
+                    }
+                    // references handed out to this thread are valid as long as its handle lives
+                    #[cfg(feature = "memchk")]
+                    {
+                        mem_revalidate();
+                        ql::val::retain::enable(false);
                     }
                     drop(db);
                     outs
@@ -619,6 +629,16 @@ fn scen_body(sc: &Scen) {
                 Err(_) => {
                     viol(&format!("thread-panic:{}", sc.name), "a reader thread panicked outside a request".into());
                     return;
+                }
+            }
+        }
+        #[cfg(feature = "memchk")]
+        for (t, os) in outs.iter().enumerate() {
+            for o in os {
+                if let Out::Panic(Pk::Other(m)) = o {
+                    if m.contains("storage corrupted") {
+                        viol(&format!("memory-poisoned-read:{}", sc.name), format!("thread {t}: {m}"));
+                    }
                 }
             }
         }
@@ -704,7 +724,10 @@ fn scen_body(sc: &Scen) {
                                     _ => None,
                                 })
                                 .collect();
-                            if exits.len() >= 2 && exits.last() != Some(&(*v as u64)) && exits.contains(&(*v as u64)) {
+                            // the value was really computed by the member's body in some
+                            // iteration (from a provisional value of the head), it is not the
+                            // least fixpoint, and the requester got it
+                            if exits.contains(&(*v as u64)) {
                                 class = "provisional-value-of-non-recovering-member-returned";
                             }
                         }
@@ -772,6 +795,24 @@ fn scen_body(sc: &Scen) {
     }
 }
 
+#[cfg(feature = "memchk")]
+fn mem_revalidate() {
+    match ql::val::retain::revalidate() {
+        Ok(n) => bump("references_revalidated", n as u64),
+        Err(e) => viol("memory-dangling-reference", e),
+    }
+}
+
+/// C23: poll the allocator monitor after an execution (and check the poison of everything freed).
+#[cfg(feature = "memchk")]
+fn mem_after_execution(sc: &Scen) {
+    crate::memchk::drain(0);
+    if let Some(e) = crate::memchk::take_error() {
+        viol(&format!("memory-allocator:{}", sc.name), e);
+    }
+    bump("executions_polled_for_memory_errors", 1);
+}
+
 /// One execution, optionally with the C19 protocol monitors and the model conformance replay.
 #[cfg(feature = "hooks")]
 fn exec_with_proto(sc: &Scen, proto_on: bool) {
@@ -779,6 +820,8 @@ fn exec_with_proto(sc: &Scen, proto_on: bool) {
         crate::proto::take_trace();
     }
     scen_body(sc);
+    #[cfg(feature = "memchk")]
+    mem_after_execution(sc);
     if proto_on {
         let trace = crate::proto::take_trace();
         let mut st = crate::proto::ProtoStats::default();
@@ -817,6 +860,13 @@ pub fn run_worker(spec: &E2Spec, w: usize, n: usize) -> WorkerOut {
         crate::proto::install_sink();
     }
     for sc in &spec.scens {
+        #[cfg(feature = "memchk")]
+        if spec.id == "C23" {
+            let _ = std::fs::write(
+                crate::evid::verif_root().join("target").join(format!("c23-progress-{w}.json")),
+                serde_json::to_string(&json!({"engine": "e2-mem", "config": "memconc", "scenario": sc, "part": [w, n]})).unwrap(),
+            );
+        }
         let sc2 = sc.clone();
         let cfg = Config {
             bound: sc.bound,
@@ -851,6 +901,10 @@ pub fn run_worker(spec: &E2Spec, w: usize, n: usize) -> WorkerOut {
         }
         let mut seen = std::collections::BTreeSet::new();
         for (sig, what, schedule) in VIOLS.lock().unwrap().drain(..) {
+            if spec.id == "C23" && !sig.starts_with("memory-") {
+                // value oracles of the borrowed harnesses belong to their own properties
+                continue;
+            }
             if spec.id == "C19" && !sig.starts_with("protocol") {
                 // value oracles of the borrowed harnesses belong to their own properties
                 continue;
@@ -865,7 +919,9 @@ pub fn run_worker(spec: &E2Spec, w: usize, n: usize) -> WorkerOut {
                 });
             }
         }
-        if let Some(f) = rep.failure {
+        // (C23 borrows the harnesses for their memory behaviour; deadlocks etc. are reported by
+        // the properties that own them)
+        if let Some(f) = rep.failure.filter(|_| spec.id != "C23") {
             let (sig, what, schedule) = match &f {
                 Failure::Deadlock { schedule, blocked } => ("deadlock", format!("deadlock: blocked threads {blocked:?}"), schedule.clone()),
                 Failure::Livelock { schedule, steps } => ("livelock", format!("no termination within {steps} scheduling points"), schedule.clone()),
@@ -889,7 +945,7 @@ pub fn run_worker(spec: &E2Spec, w: usize, n: usize) -> WorkerOut {
 }
 
 /// Replay one recorded schedule of a scenario; returns the violation found, if any.
-pub fn replay_case(case: &serde_json::Value, proto_on: bool) -> Option<Option<String>> {
+pub fn replay_case(case: &serde_json::Value, proto_on: bool, only_prefix: Option<&str>) -> Option<Option<String>> {
     let sc: Scen = serde_json::from_value(case.get("scenario")?.clone()).ok()?;
     let schedule: Vec<u32> = serde_json::from_value(case.get("schedule")?.clone()).ok()?;
     VIOLS.lock().unwrap().clear();
@@ -909,7 +965,7 @@ pub fn replay_case(case: &serde_json::Value, proto_on: bool) -> Option<Option<St
     let f = shuttle::replay(move || exec_with_proto(&sc2, proto_on), &schedule, u32::MAX);
     #[cfg(not(feature = "hooks"))]
     let f = shuttle::replay(move || scen_body(&sc2), &schedule, u32::MAX);
-    let v = VIOLS.lock().unwrap().drain(..).find(|v| !proto_on || v.0.starts_with("protocol"));
+    let v = VIOLS.lock().unwrap().drain(..).find(|v| (!proto_on || v.0.starts_with("protocol")) && only_prefix.is_none_or(|p| v.0.starts_with(p)));
     match (f, v) {
         (Some(Failure::Nondeterminism { .. }), _) | (Some(Failure::Hang { .. }), _) => None,
         (Some(f), _) => Some(Some(format!("{f:?}"))),
